@@ -75,6 +75,7 @@ def parse(path):
         if m:
             statics[m.group(1)] = m.group(2)
     funcs.statics = statics
+    funcs.all = []  # every body of the dump in order (macro instances share a name)
     i = 0
     n = len(lines)
     while i < n:
@@ -114,6 +115,11 @@ def parse(path):
         s = ln.strip()
         if ln == "}":
             funcs.setdefault(cur.name, cur)
+            funcs.all.append(cur)
+            if cur.args:
+                # macro-generated impls share one `<impl at file:line>` name: also keyed by the first argument's type
+                t0 = re.sub(r"^&(?:'\w+ )?(?:mut )?", "", cur.args[0][1])
+                funcs.setdefault(cur.name + "@" + t0, cur)
             cur = None
             block = None
             i += 1
